@@ -112,7 +112,16 @@ pub fn run(args: &Args) -> (Meta, Stats) {
                 check_xml(&input, &gen::one_char_cuts(n), st);
                 continue;
             }
-            let (input, opts) = random_html_case(&mut rng, &contexts, &[], false);
+            let (mut input, opts) = random_html_case(&mut rng, &contexts, &[], false);
+            if k % 5 == 0 {
+                // nodes that stay referenced by the tree builder while detached from the document:
+                // formatting elements opened before a frameset replaces body, then whitespace in
+                // "after after frameset" (reconstruction looks the old handles up again)
+                let parts = ["<b>", "<i>", "<a>", "<font>", "<frameset>", "</frameset>", "</html>", " ", "\n", "<noframes>", "</noframes>", "<form>", "<template>", "</template>", "<p>", "<table>", "<!-- c -->"];
+                let cnt = rng.range(2, 9);
+                input = (0..cnt).map(|_| rng.pick_s(&parts)).collect::<String>();
+                st.count("detach_focused_inputs");
+            }
             let n = input.chars().count();
             if n > 300 {
                 continue;
